@@ -30,9 +30,14 @@ def make(pid, macro, profile, idx, seed, faults=True):
     msg = lambda t: "\"C18[%s]: %s\"" % (pid, t)
     # monitors inside later-step callbacks: nothing of a later step runs after a failed join
     text = pp.text()
-    mon = "vassert!(%s == 0, %s); " % (seen, msg("an expression of a later step ran after a panic was observed by the caller"))
+    mon0 = "vassert!(%s == 0, %s); " % (seen, msg("an expression of a later step ran after a panic was observed by the caller"))
+    fmask = "k_fault_mask()" if is_async else "t_fault_mask()"
     for b, d in enumerate(profile):
         for s in range(1, d):
+            # threads / tasks are spawned only in steps with more than one active branch, in step order: ids 1..=n_before belong to earlier steps.
+            # A faulted thread may have panicked as soon as it was spawned, and every thread of a step is joined (and unwrapped) before the next step starts.
+            n_before = sum(len(active(profile, t)) for t in range(s) if len(active(profile, t)) > 1)
+            mon = mon0 + "vassert!(%s & %du32 == 0, %s); " % (fmask, ((1 << n_before) - 1) << 1, msg("an expression of a later step ran although a thread/task of an earlier step had already panicked (its join was skipped or deferred)"))
             e = E(b, s, 0) if is_async else E(b, s)
             text = text.replace("ev(%d); " % e, "ev(%d); %s" % (e, mon), 1)
             if (b, s) in captures:
